@@ -96,9 +96,26 @@ def lookupI {β} (k : Int) (l : List (Int × β)) : Option β := (l.find? (·.1 
 def setI {β} (k : Int) (v : β) (l : List (Int × β)) : List (Int × β) :=
   if l.any (·.1 == k) then l.map (fun p => if p.1 == k then (k, v) else p) else l ++ [(k, v)]
 
-/-- `clearPerAsset = true` is the repaired behaviour (F4); `summaryDefault = true` the repaired lookup (F2) -/
-def genAsset (clearPerAsset summaryDefault : Bool) (holderOf : Nat → String) (period : Int) (st : GenState) (c : Computed) :
-    Except String (List RRow × GenState) := do
+/-- (transaction id, 1-based row of the In-Out sheet) for every transaction shown: In-Flow rows from row 4, Out-Flow after them,
+    Intra-Flow last -/
+def shownRows (c : Computed) : List (Int × Nat) :=
+  ((List.range c.ins.length).zip c.ins).map (fun (k, t) => (t.row, 3 + k + 1)) ++
+  ((List.range c.outs.length).zip c.outs).map (fun (k, t) => (t.row, 8 + c.ins.length + k + 1)) ++
+  ((List.range c.intras.length).zip c.intras).map (fun (k, t) => (t.row, 13 + c.ins.length + c.outs.length + k + 1))
+
+/-- the transaction → row dictionary after writing the In-Out sheet of `c` (`d0`: what it held before) -/
+def txRowFrom (d0 : List (Int × Nat)) (c : Computed) : List (Int × Nat) := (shownRows c).foldl (fun d p => setI p.1 p.2 d) d0
+
+/-- everything `__generate_asset` lays out for one asset (no failure modelled here) -/
+structure AssetLayout where
+  rows : List RRow
+  state : GenState
+  dStart : Nat                 -- row before the first detail row
+  capacity : Nat               -- rows the Tax sheet was sized for
+  missingSummaryKey : Bool     -- some yearly line has no (asset, year) entry in the year → row dictionary
+
+/-- `clearPerAsset = true` is the repaired behaviour (F4): the transaction → row dictionary starts empty for every asset -/
+def layoutAsset (clearPerAsset : Bool) (holderOf : Nat → String) (period : Int) (st : GenState) (c : Computed) : AssetLayout :=
   let txRow0 := if clearPerAsset then [] else st.txRow
   -- In-Out sheet
   let nIn := c.ins.length; let nOut := c.outs.length
@@ -113,7 +130,7 @@ def genAsset (clearPerAsset summaryDefault : Bool) (holderOf : Nat → String) (
   let xStart := 13 + nIn + nOut
   let xRows := (List.range c.intras.length).zip c.intras |>.map fun (k, t) =>
     (RRow.ioIntra c.asset (xStart + k + 1) t.row (ofUnits t.sent) (ofUnits t.recv) (ofUnits (t.sent - t.recv)) ((lookupI t.row c.intraRun).getD 0), (t.row, xStart + k + 1))
-  let txRow := (inRows ++ outRows ++ xRows).foldl (fun d p => setI p.2.1 p.2.2 d) txRow0
+  let txRow := txRowFrom txRow0 c
   -- Tax sheet
   let nY := c.yearly.length
   let yRows := (List.range nY).zip c.yearly |>.map fun (k, (key, s)) =>
@@ -133,7 +150,6 @@ def genAsset (clearPerAsset summaryDefault : Bool) (holderOf : Nat → String) (
   let dStart := pRow + 1 + 2 + 3
   -- sheet capacity: MIN_ROWS + yearly + balances + holders + fractions rows (F10 repaired)
   let capacity := 40 + nY + c.bals.length + totals.length + c.fracs.length
-  if dStart + c.fracs.length > capacity then throw "IndexError: tax sheet too small"
   let (dRows, yearRow, _) := ((List.range c.fracs.length).zip (c.fracs.zip c.fracRun)).foldl
     (fun (acc : List RRow × List ((String × Int) × Nat) × Int) (k, (n, run)) =>
       let (rows, yr, prevYear) := acc
@@ -144,19 +160,34 @@ def genAsset (clearPerAsset summaryDefault : Bool) (holderOf : Nat → String) (
       let row := RRow.taxD c.asset (dStart + k + 1) n.f.ev.row (n.f.lot.map (·.row)) (ofUnits n.f.amt) run n.f.gain (n.f.isLong period)
         (lookupI n.f.ev.row txRow) (n.f.lot.bind (fun l => lookupI l.row txRow)) (n.evK + 1) n.evN (n.lotK.map (· + 1)) n.lotN
       (rows ++ [row], yr, y)) ([], st.yearRow, 0)
-  -- Summary sheet
-  let sRows ← ((List.range nY).zip c.yearly).mapM fun (k, (key, _)) =>
-    match (yearRow.find? (·.1 == (c.asset, key.year))).map (·.2) with
-    | some r => pure (RRow.summ (st.summaryRow + k + 1) c.asset key.year key.typ.name key.long (some r))
-    | none => if summaryDefault then pure (RRow.summ (st.summaryRow + k + 1) c.asset key.year key.typ.name key.long none)
-              else throw s!"KeyError: ({c.asset}, {key.year})"
-  pure (inRows.map (·.1) ++ outRows.map (·.1) ++ xRows.map (·.1) ++ yRows ++ bRows ++ tRows ++ [RRow.taxP c.asset (pRow + 1) c.price] ++ dRows ++ sRows,
-        { txRow, yearRow, summaryRow := st.summaryRow + nY })
+  -- Summary sheet: one line per yearly line, linked to the first detail row of that year when there is one
+  let linkOfYear (y : Int) : Option Nat := (yearRow.find? (·.1 == (c.asset, y))).map (·.2)
+  let sRows := (List.range nY).zip c.yearly |>.map fun (k, (key, _)) =>
+    RRow.summ (st.summaryRow + k + 1) c.asset key.year key.typ.name key.long (linkOfYear key.year)
+  { rows := inRows.map (·.1) ++ outRows.map (·.1) ++ xRows.map (·.1) ++ yRows ++ bRows ++ tRows ++ [RRow.taxP c.asset (pRow + 1) c.price] ++ dRows ++ sRows,
+    state := { txRow, yearRow, summaryRow := st.summaryRow + nY },
+    dStart, capacity,
+    missingSummaryKey := c.yearly.any (fun (key, _) => (linkOfYear key.year).isNone) }
 
-def genFull (clearPerAsset summaryDefault : Bool) (holderOf : Nat → String) (period : Int) (cs : List Computed) : Except String (List RRow) := do
-  let (rows, _) ← cs.foldlM (fun (acc : List RRow × GenState) c => do
-    let (r, st) ← genAsset clearPerAsset summaryDefault holderOf period acc.2 c
-    pure (acc.1 ++ r, st)) ([], {})
-  pure rows
+/-- `__generate_asset` with its two failure modes: writing past the sized sheet (`IndexError`, F10) and — before the repair of F2
+    (`summaryDefault = false`) — a Summary line whose year has no detail row (`KeyError`) -/
+def genAsset (clearPerAsset summaryDefault : Bool) (holderOf : Nat → String) (period : Int) (st : GenState) (c : Computed) :
+    Except String (List RRow × GenState) :=
+  let L := layoutAsset clearPerAsset holderOf period st c
+  if L.dStart + c.fracs.length > L.capacity then .error "IndexError: tax sheet too small"
+  else if !summaryDefault && L.missingSummaryKey then .error "KeyError: (asset, year)"
+  else .ok (L.rows, L.state)
+
+/-- assets in order, threading the generator's state (row dictionaries, next Summary row) -/
+def genFullFrom (clearPerAsset summaryDefault : Bool) (holderOf : Nat → String) (period : Int) :
+    List RRow × GenState → List Computed → Except String (List RRow)
+  | acc, [] => .ok acc.1
+  | acc, c :: t =>
+    match genAsset clearPerAsset summaryDefault holderOf period acc.2 c with
+    | .error e => .error e
+    | .ok (r, st) => genFullFrom clearPerAsset summaryDefault holderOf period (acc.1 ++ r, st) t
+
+def genFull (clearPerAsset summaryDefault : Bool) (holderOf : Nat → String) (period : Int) (cs : List Computed) : Except String (List RRow) :=
+  genFullFrom clearPerAsset summaryDefault holderOf period ([], {}) cs
 
 end Rp2
